@@ -205,7 +205,8 @@ func (e *ptile) save(b []byte, histo *hdrhistogram.Histogram) []byte {
 }
 
 func (e *ptile) IsConstant() bool {
-	return e.Value.IsConstant()
+	// Like other aggregates, ptile always reads its accumulated state
+	return false
 }
 
 func (e *ptile) DeAggregate() Expr {
